@@ -29,6 +29,9 @@ def param(p):
             loc["pi"] = sympy.pi
             e = sympy.sympify(txt, locals=loc)
             return e
+        if p.startswith("c:"):       # a complex number: "c:<re>,<im>"
+            re_, im_ = p[2:].split(",")
+            return complex(float(re_), float(im_))
         if p.startswith("f:"):
             return sympy.Float(float(p[2:]))
         if p.startswith("r:"):
